@@ -3,6 +3,7 @@ import os
 import vlib, fam_consts
 from engine import Run, replay_event
 from fam_pairing import PAIR, key_of, class_of, confirm_factory, gating, only_ops
+import fam_tower
 
 RULE = ("oracle = textbook Miller function over the bits of |x| with chord/tangent lines, inversion for negative x, plain exponentiation "
         "by 3(q^12-1)/r (Pairing.tla; the twist-slope form is checked by TLC against the unoptimised definition on E(Fq12) on the generators). "
@@ -29,7 +30,18 @@ def run(tier):
     fails = gating(run.validate(PAIR, traces, timeout=3000))
     run.count_classes(traces, class_of)
     run.classify(fails, key_of, confirm_factory(run))
-    run.assumptions += ["'for all inputs' is not exhaustive at 381 bits; a toy BLS12 instance of the coded Miller loop / final exponentiation is planned (PairingAlg)",
+    # Tier A from the source text.  (1) the Miller-loop step functions (doubling step, addition step, ell) executed on a toy twist against the
+    # chord-and-tangent law and the line through the points; (2) the final exponentiation executed on exponents modulo q^12 - 1 at full size
+    tm_cases, tm_fails, tm_unsupported = fam_tower.tower_machine(run, tier, with_alias=False, part="pairing")
+    for c in tm_cases: run.classes.add(("tm", c["name"], c.get("pt", 0) % 7, c.get("pt2", 0) % 7))
+    run.extra["source_extracted_functions_executed"] = sorted(set(c["name"] for c in tm_cases))
+    run.extra["source_functions_not_straight_line"] = tm_unsupported
+    run.classify(tm_fails, fam_tower.key_of, None)
+    ex_fails, ex_skipped = fam_tower.exp_events(fam_tower.exp_machine(run), [("final_exponentiation", 1)])   # bound as pairing() calls it: output = input
+    if ex_skipped: run.extra["exponent_machine_not_applicable"] = ex_skipped
+    run.classify(ex_fails, fam_tower.exp_key, None)
+    run.assumptions += ["'for all inputs' is not exhaustive at 381 bits; the Miller loop's bit loop itself (which steps run in which order) is only checked through values",
+                        "ExpMachine's verdict (final exponent = 3 (q^12 - 1) / r for every non-zero input) presupposes the tower operations are right (C04) and models exp_by_x_restrict by its meaning a^(|x| >> s), not by its loop",
                         "Fq12 products of the oracle are computed by a Java accelerator checked against the ExtField definition (MC_Tower)"]
     return run.finish(RULE)
 
